@@ -66,6 +66,9 @@ func checkC01(c *Ctx) {
 	u.buildSSA()
 	// a literal denotes its documented value on every evaluation: literals are never served from a cache of mutable values
 	borrowRule(c, "C07", "C07.fresh", "C01.fresh")
+	// a number is a value of its own: NewNumber allocates (a shared pre-built number couples every holder, 自增 on one
+	// changes the literal 0 everywhere)
+	borrowRule(c, "C07", "C07.ctor", "C01.ctor")
 	// the value of a numeric literal (shared with C04): ParseFloat on every path
 	checkNum2Float(c, u, "C01.literal")
 	p := u.Pkgs["pkg/syntax/zh"]
@@ -332,6 +335,79 @@ func checkC01(c *Ctx) {
 			}
 			return false
 		})
+		// the same dispatch written as data: a package-level map from the operator constant to {compare function,
+		// negate flag}, looked up once; the flag guards one negation of the result
+		if len(seenConst) == 0 {
+			negUnderFlag := false
+			ast.Inspect(fd.Body, func(n ast.Node) bool {
+				if is, ok := n.(*ast.IfStmt); ok {
+					if _, isSel := ast.Unparen(is.Cond).(*ast.SelectorExpr); isSel && is.Else == nil {
+						ast.Inspect(is.Body, func(m ast.Node) bool {
+							if ue, ok := m.(*ast.UnaryExpr); ok && ue.Op == token.NOT {
+								negUnderFlag = true
+							}
+							return true
+						})
+					}
+				}
+				return true
+			})
+			ast.Inspect(fd.Body, func(n ast.Node) bool {
+				ix, ok := n.(*ast.IndexExpr)
+				if !ok {
+					return true
+				}
+				id, ok := ast.Unparen(ix.X).(*ast.Ident)
+				if !ok {
+					return true
+				}
+				v, ok := einfo.Uses[id].(*types.Var)
+				if !ok || v.Parent() != pp.Types.Scope() {
+					return true
+				}
+				lit := newPE(u, einfo, fd).findListLiteral(v)
+				if lit == nil {
+					return true
+				}
+				for _, el := range lit.Elts {
+					kv, ok := el.(*ast.KeyValueExpr)
+					if !ok {
+						continue
+					}
+					kc, ok := constInt(einfo, kv.Key)
+					if !ok {
+						continue
+					}
+					name := ""
+					for n2, v2 := range logicConsts {
+						if v2 == kc {
+							name = n2
+						}
+					}
+					ref, known := cmpRef[name]
+					if !known {
+						continue
+					}
+					seenConst[kc] = true
+					fn, neg, nFn := "", false, 0
+					ast.Inspect(kv.Value, func(m ast.Node) bool {
+						if mid, ok := m.(*ast.Ident); ok {
+							if f, isF := einfo.Uses[mid].(*types.Func); isF {
+								fn = aliasName(f)
+								nFn++
+							}
+							if mid.Name == "true" && einfo.Uses[mid] == types.Universe.Lookup("true") {
+								neg = true
+							}
+						}
+						return true
+					})
+					ok2 := nFn == 1 && fn == ref.fn && neg == ref.neg && negUnderFlag
+					R.check(ok2, "C01.dispatch", "evalLogicComparator:"+name, u.pos(kv.Pos()), fmt.Sprintf("%s -> %s negated=%v (table entry)", name, ref.fn, ref.neg), fmt.Sprintf("%s is evaluated by %s negated=%v (table entry; negation applied under the flag: %v), want %s negated=%v", name, fn, neg, negUnderFlag, ref.fn, ref.neg))
+				}
+				return true
+			})
+		}
 		for name := range cmpRef {
 			if !seenConst[logicConsts[name]] {
 				R.viol("C01.dispatch", "evalLogicComparator:"+name, u.pos(fd.Pos()), "comparison operator has no case")
